@@ -124,14 +124,14 @@ def main(ctx):
         scs = rng.sample(scs, 60000)
     ev.rule = ("cases: (scenario, load limit, file form): every layout of 1..4 (6) records with non-decreasing timestamps 0..3 "
                "split into 1..3 files of 1..2 (3) records x start {-1,0,1,2,4} x factor {1,2} x look-ahead {0,1}, each replayed "
-               "with limit None and 1 and in one of six file forms (plain, gz, bz2, plain+gz duplicates, comment+corrupt "
-               "lines, comments first and last).  Non-trivial: more than one file, or equal timestamps, or a start inside the history.")
+               "with limit None and 1 and in one of seven file forms (plain, gz, bz2, plain+gz duplicates, comment+corrupt "
+               "lines, comments first and last, un-openable entries beside the files).  Non-trivial: more than one file, or equal timestamps, or a start inside the history.")
     ev.assumptions = ["integer-second timestamps (the millisecond epsilon of timestamp comparison is C17's subject)",
                       "load() is called at every wall-clock tick until it returns no events, as the loader documents"]
     jobs = []
     for n, j in enumerate(scs):
-        jobs.append((j, 0, n % 6))
-        jobs.append((j, 1, (n + 2) % 6))
+        jobs.append((j, 0, n % 7))
+        jobs.append((j, 1, (n + 2) % 7))
     lines = core.pmap(histlib.run_scenario, jobs, chunksize=32)
     for ln in lines:
         sc = ln["sc"]
